@@ -253,6 +253,17 @@ def directed_personas(year, seed, n):
     from hv import statutory as st
     from hv.common import rng_for
     out = list(scen.directed_personas(year, seed, n))
+    if year == 2021:
+        # Schedule 8812 line 5 worksheet: families whose line 5 (the 2021 increase) is above the status amount of line 6, with the
+        # income walking through the first phase-out in $1,000 steps - "the smaller of line 7 or line 10" is decided by line 7 only there
+        for st_, kids in (('HOH', 3), ('S', 4), ('MFJ', 8)):
+            base_ = {'HOH': 112500.0, 'S': 75000.0, 'MFJ': 150000.0}[st_]
+            cap_ = kids * 1600.0
+            for step in range(0, 6 if n <= 3 else 14):
+                w_ = base_ + (cap_ / 0.05) - 6000.0 + 1500.0 * step + 400.0
+                pk = scen.plain_persona(year, st_, w_, key=f'dirctc5:{st_}:{step}', deps_ctc=kids)
+                pk.n_under6 = kids
+                out.append(('F1k', pk))
     # N.C. taxable income (D-400 line 14) exactly ON a limit of the use-tax table, one dollar below and one above:
     # solve once, then move the wages by the distance to the limit
     r = rng_for('C02usetax', seed, year)
